@@ -578,15 +578,19 @@ struct Runner {
             if (twoobj) { x["src"] = o == 0 ? "b" : "a"; }
             // moved-from objects: only operations whose meaning does not depend on the old contents (plus insert into a
             // moved-from static_set); nothing that reads a moved-from partner
-            if (mvd[o] && !(twoobj || op == "clear" || op == "ctor_range" || op.rfind("ms_ctor", 0) == 0 || (KIND == K_SSET && op == "insert_copy"))) {
-                op = KIND == K_FMSET ? "ms_ctor_default" : "clear";
-            }
+            auto revive_only = [&] {
+                bool const two = op == "copy_assign" || op == "move_assign" || op == "ctor_copy" || op == "ctor_move";
+                if (mvd[o] && !(two || op == "clear" || op == "ctor_range" || op.rfind("ms_ctor", 0) == 0 || (KIND == K_SSET && op == "insert_copy"))) {
+                    op = KIND == K_FMSET ? "ms_ctor_default" : "clear";
+                }
+            };
+            revive_only();
             if (mvd[1 - o] && (twoobj || op == "swap" || op == "fswap")) { continue; }
             if (KIND == K_FMSET && !twoobj && o == 1) { o = 0; if (mvd[0]) { continue; } }
             if (twoobj && rng.coin(50)) { continue; }
             bool shrinks = op == "clear" || op == "extract" || op.rfind("ctor", 0) == 0 || op == "replace";
             if (grow && shrinks && rng.coin(85)) { continue; }
-            if (!grow && op.find("insert") != std::string::npos && rng.coin(60)) { op = "erase_key"; }
+            if (!mvd[o] && !grow && op.find("insert") != std::string::npos && rng.coin(60)) { op = "erase_key"; }
             auto has = [&](int k) { return std::find(cur.begin(), cur.end(), k) != cur.end(); };
             // keep the call inside the domain the property quantifies over (capacity is not exceeded)
             if ((KIND == K_FSET || KIND == K_FSETIPV) && room == 0 && !has(x["v"].get<int>())
@@ -631,6 +635,7 @@ struct Runner {
                 if (op != "ms_ctor_sorted") { a.erase(std::unique(a.begin(), a.end()), a.end()); }
                 x["xs"] = a;
             }
+            revive_only(); // whatever was decided above: a moved-from object only gets the operations Pre() admits for it
             step(op, o == 0 ? "a" : "b", x, true);
         }
     }
